@@ -40,7 +40,7 @@ THttp == Is("Http") /\ E.ok /\ UNCHANGED bv
                /\ Step
 \* end of the scenario: every close was propagated, every stream is complete where nobody closed,
 \* and the bridge holds no connection to the TCP server any more once all clients are gone
-TFinal == Is("Final") /\ UNCHANGED bv /\ O!Settled(E.judge_close, E.server_open)
+TFinal == Is("Final") /\ UNCHANGED bv /\ O!Settled(E.judge_close, E.server_open, E.bridge_fds_leaked)
                /\ Step
 TNext == TReset \/ TOpen \/ TWr \/ TRd \/ TPeerClose \/ TPeerEOF \/ THttp \/ TFinal
 TSpec == TInit /\ [][TNext]_<<bv, l>>
